@@ -45,7 +45,19 @@ def skeleton(x, d=0):
             return tuple(skeleton(i, d + 1) for i in x)
         if isinstance(x, (int, str, bool, float, type(None))) and not isinstance(x, CrossHairValue):
             return ("c", x)
-        return ("id", id(x))
+        if isinstance(x, CrossHairValue):
+            # identity of a symbolic value = its solver term where it has one (proxies are re-created on every access,
+            # so id() is not stable); otherwise only its type
+            var = getattr(x, "var", None)
+            if var is not None and hasattr(var, "sexpr"):
+                try:
+                    return ("sym", type(x).__name__, var.sexpr()[:200])
+                except Exception:
+                    pass
+            return ("sym", type(x).__name__)
+        if isinstance(x, dict) and d < 4:
+            return ("dict", len(x))
+        return ("obj", type(x).__name__)
 
 
 _CONFIGURED = False
@@ -62,10 +74,10 @@ def configure():
 
     # 2. formatting stubs
     def sym_int_repr(self):
-        return Opaque(("int", id(self)))
+        return Opaque(("repr", skeleton(self)))
 
     def sym_str_repr(self):
-        return Opaque(("str", id(self)))
+        return Opaque(("repr", skeleton(self)))
 
     b.SymbolicInt.__repr__ = sym_int_repr
     b.AnySymbolicStr.__repr__ = sym_str_repr
